@@ -174,13 +174,19 @@ def jobs_for(ctx, only=None):
     jobs = []
     for c in range(n):
         chunk = pats[c::n]
-        if not chunk:
+        if not chunk or (only and (only.get('star') or only.get('internal'))):
             continue
         req, cells = build(chunk, c)
         common = [dict(id=f'common:{pat}', pattern=pat, helper='common_' + nm, source=9) for nm, pat in COMMON] if c == 0 else []
         jobs.append(dict(id=f'res/{c}', req=req.SerializeToString(), probe='mc.probes.paths',
                          probe_args=dict(package=names.import_package(P), cells=cells + common, thorough=ctx.thorough,
                                          seed=ctx.seed), _cells=cells + common))
+    if not only or only.get('star'):
+        # the bare wildcard pattern once per source (in the pattern list it meets the first source only)
+        req, cells = build(['*'] * 12, 98)
+        cells = [dict(c, id='star/' + c['id']) for c in cells]
+        jobs.append(dict(id='res/star', req=req.SerializeToString(), probe='mc.probes.paths',
+                         probe_args=dict(package=names.import_package(P), cells=cells, thorough=ctx.thorough, seed=ctx.seed), _cells=cells))
     if pats and (not only or only.get('internal')):
         # the same sources once more in a library whose other RPCs are internal methods
         chunk = pats[1:60:2] if not only else pats
@@ -218,7 +224,7 @@ def run(ctx, only=None):
         for s in obs['samples']:
             ctx.sample(s)
         for f in obs['failures']:
-            ctx.violation(f'{f["kind"]}|{f["cls"]}', f'{f["cell"]}: {f["kind"]}: {f["detail"]}', dict(patterns=[f['pattern']], internal=str(f['cell']).startswith('internal-mode/')))
+            ctx.violation(f'{f["kind"]}|{f["cls"]}', f'{f["cell"]}: {f["kind"]}: {f["detail"]}', dict(patterns=[f['pattern']], internal=str(f['cell']).startswith('internal-mode/'), star=str(f['cell']).startswith('star/')))
     if not only and calls < 20000 and not ctx.violations:
         raise HarnessError(f'C19 exploration collapsed: {calls} helper calls')
     ctx.extra['bound'] = f'pattern depth <= {4 if ctx.thorough else 3} segments'
